@@ -15,7 +15,7 @@ func init() {
 	register(&Rule{ID: "P-SWITCH-DEFAULT", Props: []string{"C04", "C01"}, Floor: 5,
 		Doc: "every switch on a lexer.TokenType in the parser is exhaustive: it has a default clause, or no case body can fall out of the switch (so the code after it handles exactly the unmatched tokens); an unmatched token must never merge silently with a handled one",
 		Run: rulePSwitchDefault})
-	register(&Rule{ID: "P-CHAIN-ELSE", Props: []string{"C04", "C12"}, Floor: 3,
+	register(&Rule{ID: "P-CHAIN-ELSE", Props: []string{"C04", "C12"}, Floor: 0,
 		Doc: "every if/else-if chain (>= 2 arms) that dispatches on a token type in the parser ends in an else, or every arm leaves the chain",
 		Run: rulePChainElse})
 	register(&Rule{ID: "P-ERRFLOW", Props: []string{"C04", "C08", "C16", "C03"}, Floor: 150,
